@@ -1,4 +1,119 @@
 package vh
 
-// placeholder filled in by iter.go
-func (r *EngineRunner) execIter(f []string) string { return "err unknown-op" }
+import (
+	"bytes"
+	"fmt"
+	"sort"
+
+	kv "github.com/XiXi-2024/xixi-kv"
+)
+
+// iterRef is the reference iterator of the C10 oracle: a cursor into the sorted, prefix-filtered
+// snapshot taken from the reference map when the iterator was created.
+type iterRef struct {
+	keys [][]byte
+	vals [][]byte
+	cur  int
+	rev  bool
+}
+
+func (r *EngineRunner) newIterRef(rev bool, prefix []byte) *iterRef {
+	ref := &iterRef{rev: rev}
+	var ks []string
+	for k := range r.ref.m {
+		if bytes.HasPrefix([]byte(k), prefix) {
+			ks = append(ks, k)
+		}
+	}
+	sort.Strings(ks)
+	if rev {
+		for i, j := 0, len(ks)-1; i < j; i, j = i+1, j-1 {
+			ks[i], ks[j] = ks[j], ks[i]
+		}
+	}
+	for _, k := range ks {
+		ref.keys = append(ref.keys, []byte(k))
+		ref.vals = append(ref.vals, append([]byte(nil), r.ref.m[k]...))
+	}
+	return ref
+}
+
+func (ref *iterRef) seek(t []byte) {
+	if ref.cur >= len(ref.keys) {
+		return
+	}
+	for i, k := range ref.keys {
+		c := bytes.Compare(k, t)
+		if (!ref.rev && c >= 0) || (ref.rev && c <= 0) {
+			ref.cur = i
+			return
+		}
+	}
+	ref.cur = len(ref.keys)
+}
+
+// itObs renders (Valid, Key, Value) and checks them against the reference iterator.
+func (r *EngineRunner) itObs(what string) string {
+	it := r.iter
+	ref := r.iterRef
+	if !it.Valid() {
+		if ref != nil && ref.cur < len(ref.keys) {
+			r.fail("C10", "after %s the iterator is exhausted, the snapshot still has %s", what, Obs(ref.keys[ref.cur]))
+		}
+		return "v=0"
+	}
+	k := it.Key()
+	v, err := it.Value()
+	if ref != nil {
+		if ref.cur >= len(ref.keys) {
+			r.fail("C10", "after %s the iterator yields %s, the snapshot is exhausted", what, Obs(k))
+		} else if !bytes.Equal(k, ref.keys[ref.cur]) {
+			r.fail("C10", "after %s the iterator is at %s, expected %s", what, Obs(k), Obs(ref.keys[ref.cur]))
+		} else if err != nil || !bytes.Equal(v, ref.vals[ref.cur]) {
+			r.fail("C10", "after %s Value of %s is not the value at creation of the iterator", what, Obs(k))
+		}
+	}
+	vs := "err"
+	if err == nil {
+		vs = Obs(v)
+	}
+	return fmt.Sprintf("v=1 k=%s val=%s", Obs(k), vs)
+}
+
+func (r *EngineRunner) execIter(f []string) string {
+	switch f[1] {
+	case "itnew":
+		prefix, _ := ParseTok(f[3])
+		rev := f[2] == "1"
+		if r.iter != nil {
+			r.iter.Close()
+		}
+		r.iter = r.db.NewIterator(kv.IteratorOptions{Prefix: prefix, Reverse: rev})
+		r.iterRef = r.newIterRef(rev, prefix)
+		return r.itObs("NewIterator") + r.takeEvents(false)
+	case "itrewind":
+		r.iter.Rewind()
+		r.iterRef.cur = 0
+		return r.itObs("Rewind") + r.takeEvents(false)
+	case "itseek":
+		t, _ := ParseTok(f[2])
+		r.iter.Seek(t)
+		r.iterRef.seek(t)
+		return r.itObs("Seek "+f[2]) + r.takeEvents(false)
+	case "itnext":
+		r.iter.Next()
+		if r.iterRef.cur < len(r.iterRef.keys) {
+			r.iterRef.cur++
+		}
+		return r.itObs("Next") + r.takeEvents(false)
+	case "itobs":
+		return r.itObs("(no call)") + r.takeEvents(false)
+	case "itclose":
+		if r.iter != nil {
+			r.iter.Close()
+			r.iter = nil
+		}
+		return "ok"
+	}
+	return "err unknown-op"
+}
